@@ -7,9 +7,11 @@ from props import PROPS
 from manifest_text import TEXT, HOOK_COMMITS, NOT_YET
 
 all_ids = [json.loads(l)["id"] for l in open(os.path.join(ROOT, "properties.jsonl"))]
+# only properties the coordinator has reviewed are claimed (one id per line in lib/claimed.txt)
+claimed = {l.strip() for l in open(os.path.join(ROOT, "lib", "claimed.txt")) if l.strip() and not l.startswith("#")}
 checks = []
 for pid in all_ids:
-    if pid not in PROPS or pid not in TEXT:
+    if pid not in PROPS or pid not in TEXT or pid not in claimed:
         continue
     t = TEXT[pid]
     checks.append({
